@@ -809,6 +809,10 @@ class Engine:
         for path in list(self.process_paths.keys()):
             if starts_with(path, deletion):
                 del self.process_paths[path]
+                # Forget how far the deleted process was simulated: a
+                # process created at the same path later in this batch of
+                # updates starts its own front at its creation time.
+                self.front.pop(path, None)
 
         for path in list(self._step_paths):
             if starts_with(path, deletion):
